@@ -537,9 +537,11 @@ impl InnerInMemory {
         let multiple_records_at_label_disallowed = self
             .records
             .range(&start_range_key..&end_range_key)
-            // remember CNAME can be the only record at a particular label
-            .any(|(key, _)| {
-                !is_nsec(record.record_type(), key.record_type)
+            // remember CNAME can be the only record at a particular label; an RRset whose last
+            // record was deleted by a dynamic update is no data at the label
+            .any(|(key, rrset)| {
+                !rrset.is_empty()
+                    && !is_nsec(record.record_type(), key.record_type)
                     && label_does_not_allow_multiple(
                         record.record_type(),
                         key.record_type,
